@@ -379,6 +379,7 @@ func stageSites(rep *lib.Report, round int) []cidT {
 		specs = append(specs, &sp)
 	}
 	// specifications aimed at the recorded disagreement classes (names taken from the generated program)
+	var histIdx []int // context-bearing specifications used for the query-history check
 	addT := func(role string, c cidT) {
 		for i, rn := range roles {
 			if rn == role {
@@ -399,6 +400,11 @@ func stageSites(rep *lib.Report, round int) []cidT {
 		addT("sources", cidT{fTyp: q(pk.T), fFld: "^G$"})
 		addT("sources", cidT{fMeth: "^" + q(pk.PM) + "$", fRecv: "^$"})
 		addT("backtracepoints", cidT{fMeth: "^" + q(pk.Plain) + "$", fVM: "^$"})
+		for _, ctx := range []string{"\\.run[0-3]$", "\\)\\.Run$", "\\$3$"} {
+			histIdx = append(histIdx, len(specs), len(specs)+1)
+			addT("sources", cidT{fCtx: ctx, fMeth: "^(" + q(pk.Plain) + "|" + q(pk.Fn) + "|" + q(pk.PM) + ")$"})
+			addT("sinks", cidT{fCtx: ctx, fPkg: q(pk.path) + "$", fMeth: "^(" + q(pk.Plain) + "|" + q(pk.Fn) + "|" + q(pk.PM) + ")$"})
+		}
 		addT("sources", cidT{fPkg: "^" + q(pk.path) + "$", fTyp: q(pk.T), fFld: "Secret"})
 	}
 	text := buildConfig(specs)
@@ -729,6 +735,74 @@ func stageSites(rep *lib.Report, round int) []cidT {
 			judge("entry", c.site, where, sp, real, parts[1][j], truth, dom, reason, "main.go")
 		}
 	}
+	// ---- Config-level predicates on ONE loaded configuration (Config.IsSomeSource / IsSomeSink, reached through
+	// taint.IsSourceNode(state, nil, ·) and taint.IsNodeOfInterest): every call site is queried in program order and,
+	// on a freshly loaded configuration, in reverse order, each pass twice.  The answer must be the stateless
+	// disjunction of the model over the specifications of the role: identification is a function of the location
+	// and the specification, not of the query history (the same callee occurs in several enclosing functions).
+	histQueries, histBad := 0, 0
+	var histSpecs []*specT
+	for _, j := range histIdx {
+		cp := *specs[j]
+		histSpecs = append(histSpecs, &cp)
+	}
+	histText := buildConfig(histSpecs) // a small configuration: only specifications that discriminate by context
+	for _, order := range []string{"forward", "reverse"} {
+		cfgH, herr := loadConfig(histText)
+		if herr != nil {
+			rep.Fail("config-load-history-sites", "history configuration rejected: "+herr.Error(), []byte(histText), true)
+			break
+		}
+		oldCfg := state.Config
+		state.Config = cfgH
+		for pass := 0; pass < 2; pass++ {
+			for k := range calls {
+				i := k
+				if order == "reverse" {
+					i = len(calls) - 1 - k
+				}
+				c := calls[i]
+				modelLine := strings.Split(out[base+i], " ")[1]
+				expSrc, expInt := false, false
+				for _, j := range histIdx {
+					if modelLine[j] != '1' {
+						continue
+					}
+					switch roles[specs[j].role] {
+					case "sources":
+						expSrc, expInt = true, true
+					case "sinks":
+						expInt = true
+					}
+				}
+				rep.Count(fmt.Sprintf("config-level-history:expected-source=%v", expSrc))
+				var n ssa.Node = c.instr.Value()
+				gotSrc, gotInt := false, false
+				func() {
+					defer func() { recover() }()
+					gotSrc = taint.IsSourceNode(state, nil, n)
+					gotInt = taint.IsNodeOfInterest(state, n)
+				}()
+				histQueries += 2
+				if os.Getenv("VERIF_C04_DEBUG") != "" && pass == 0 {
+					fmt.Fprintf(os.Stderr, "hist %s %-60s %-30s expSrc=%v gotSrc=%v expInt=%v gotInt=%v\n", order, c.instr.String(), c.instr.Parent().String(), expSrc, gotSrc, expInt, gotInt)
+				}
+				rep.Case(fmt.Sprintf("hist|%s|%d|%s|%s", order, pass, c.instr.String(), c.instr.Parent().String()))
+				if gotSrc != expSrc || gotInt != expInt {
+					histBad++
+					where := fmt.Sprintf("%s [%s]", c.instr.String(), c.instr.Parent().String())
+					rep.Fail(fmt.Sprintf("history:%s:%d:%s", order, pass, where),
+						fmt.Sprintf("Config-level identification depends on the query history: %s queried %s (pass %d) on one loaded configuration: IsSomeSource=%v (stateless: %v), source-or-sink=%v (stateless: %v)",
+							where, order, pass, gotSrc, expSrc, gotInt, expInt),
+						[]byte(fmt.Sprintf("call: %s\norder: %s pass %d\nConfig.IsSomeSource via taint.IsSourceNode(state, nil, call): %v, stateless disjunction over the source specifications: %v\ntaint.IsNodeOfInterest: %v, stateless: %v\nconfiguration (one Config object for the whole pass):\n%s\n%s",
+							where, order, pass, gotSrc, expSrc, gotInt, expInt, histText, progText("main.go"))), false)
+				}
+			}
+		}
+		state.Config = oldCfg
+	}
+	rep.Count(fmt.Sprintf("config-level-history-queries:sites=%d", histQueries))
+	_ = histBad
 	base += len(calls)
 	for i, p := range pairsL {
 		parts := strings.Split(out[base+i], " ")
